@@ -87,8 +87,16 @@ pub struct RunState {
     pub next_gate_id: u64,
     pub next_token: u64,
     pub emit_logs: bool,
+    /// Log at `WARN`/`ERROR` instead of `INFO` (runs whose subscriber filters out `INFO`).
+    pub log_loud: bool,
+    /// Lines logged outside of any span from inside callbacks.
+    pub helper_logs: u64,
     pub log_ctr: u64,
     pub deferred: Vec<Deferred>,
+    /// Set while a deferred emission runs: the ids logged then go to `late_ids`.
+    pub firing_deferred: bool,
+    /// Log ids emitted by a callback's detached worker after the callback returned.
+    pub late_ids: std::collections::HashSet<String>,
 }
 
 /// A log emission postponed until the scheduler fires it: emitted inside a clone
@@ -275,6 +283,9 @@ fn emit_logs(idx: usize, n: u16) {
             rs.log_ctr += 1;
             let id = format!("L:{idx}:{}", rs.log_ctr);
             rs.log[idx].logs.push(id.clone());
+            if rs.firing_deferred {
+                rs.late_ids.insert(id.clone());
+            }
             Some(id)
         });
         if let Some(id) = id {
@@ -289,10 +300,24 @@ fn emit_logs(idx: usize, n: u16) {
                 6 => " dunder__in__the__middle__",
                 _ => "",
             };
+            let loud = with_rs(|rs| rs.log_loud);
+            // now and then a helper of the callback (another thread, a detached task) logs as well,
+            // outside of any span: such a line belongs to no scenario and goes to all the running ones
+            if n % 9 == 4 && with_rs(|rs| { rs.helper_logs += 1; rs.helper_logs <= 40 }) {
+                if loud {
+                    tracing::warn!(parent: None, "OUT:helper of {id}");
+                } else {
+                    tracing::info!(parent: None, "OUT:helper of {id}");
+                }
+            }
             if n % 5 == 0 {
                 let here = tracing::Span::current();
-                let detached = tracing::info_span!(parent: None, "detached");
-                detached.in_scope(|| tracing::info!(parent: &here, "{id}{tail}"));
+                let detached = tracing::error_span!(parent: None, "detached");
+                detached.in_scope(|| if loud { tracing::warn!(parent: &here, "{id}{tail}") } else { tracing::info!(parent: &here, "{id}{tail}") });
+            } else if loud && n % 2 == 0 {
+                tracing::error!("{id}{tail}");
+            } else if loud {
+                tracing::warn!("{id}{tail}");
             } else {
                 tracing::info!("{id}{tail}");
             }
@@ -325,7 +350,9 @@ pub fn fire_deferred(idle: bool) -> Option<usize> {
     #[cfg(feature = "tracing")]
     {
         let entered = d.span.enter();
+        with_rs(|rs| rs.firing_deferred = true);
         emit_logs(d.owner, u16::from(d.n));
+        with_rs(|rs| rs.firing_deferred = false);
         drop(entered);
     }
     Some(d.owner)
@@ -388,7 +415,7 @@ impl World for TW {
                 registry.span(&here)?.parent().map(|p| p.id())
             });
             if let Some(parent) = scenario_span {
-                let span = tracing::info_span!(parent: parent, "scenario worker");
+                let span = tracing::error_span!(parent: parent, "scenario worker");
                 with_rs(|rs| rs.deferred.push(Deferred { span, owner: idx, n: 0 }));
                 with_rs(|rs| rs.scenario_span_holds += 1);
             }
